@@ -2,5 +2,5 @@
 CONSTANTS MaxRank = 3  MaxSize = 3  MaxStride = 3  MaxLen = 20  K = 2  KRank = 2  Tier = "quick"  Depth = 2  ChainSize = 2
 INIT Init
 NEXT Next
-INVARIANTS InvExact InvChain Emit
+INVARIANTS InvExact InvKbit InvChain Emit
 CHECK_DEADLOCK FALSE
